@@ -1027,6 +1027,11 @@ class Curve(BaseCurve):
             error = np.dot(np.moveaxis(numerator, 0, -1), np.dot(materror, numerator))
             error = np.max(np.abs(error))
             error += np.dot(oldweights, np.dot(materror, oldweights))
+            # Weights are homogeneous: measure the error at unit-weight scale
+            scale = max(abs(weig) for weig in oldweights)
+            if isinstance(scale, (int, np.integer)):
+                scale = Fraction(int(scale))
+            error = error / (scale * scale)
             weights = np.dot(transmat, oldweights)
             smallest = 1e-9 * max(abs(weig) for weig in weights)
             for weig in weights:
